@@ -95,6 +95,7 @@ class FakeS3:
         if truncated:
             # opaque token with + / = in it
             token = base64.b64encode(('\xff\xfe>' + page[-1]).encode('utf-8', 'surrogateescape')).decode()
+            self.issued_tokens = getattr(self, 'issued_tokens', []) + [token]
             parts.append('<NextContinuationToken>%s</NextContinuationToken>' % escape(token))
         parts.append('</ListBucketResult>')
         return httpx.Response(200, content=''.join(parts).encode('utf-8', 'surrogateescape'))
